@@ -24,6 +24,11 @@ def body(chk):
                  selftest=False, need_regions={'C04': ('resp-eof', 'resp-err', 'op-single'), 'C01': ('resp', 'none'), 'C12': ('resp',)}[PID])
     if streams is not None:
         streams.extra_lanes(chk, PID)
+    if PID == 'C12':
+        # a timeout (like controls and search options) armed for a search is consumed by it and cannot expire a later, untimed operation
+        from .c02 import SearchModifiers
+        run_lane(chk, SearchModifiers, (), bounds={'pending modifiers': 'every combination of controls / timeout (any u64 s) / search options', 'search': 'streaming_search_with without adapters'},
+                 selftest=False, need_regions=('none', 'ctrls+timeout+opts'))
     chk.assumptions += driver.ASSUMPTIONS.get(PID, []) + driver.ASSUMPTIONS['all']
 
 
